@@ -1,13 +1,17 @@
-import OZ.Lemmas.RwaInv
+import OZ.Lemmas.RwaModules
 /-
 C04 — RWA tokens never move past the compliance, identity, freeze and pause gates.
 
 Property theorems only. The model (OZ/Model/Rwa.lean) mirrors `impl RWA` of
 packages/tokens/src/rwa/storage.rs (after the `fix:` commit that makes `transfer_from` call
 `validate_transfer`), the pause flag of contract-utils/pausable, and the wiring of the harness
-token (operator = admin + `require_auth`). The identity verifier and the compliance contract
-are oracles: arbitrary functions in the state, replaced at will by `env*` operations, so every
-statement holds for every behaviour of those contracts. `s` is always the state BEFORE the
+token (operator = admin + `require_auth`). The compliance contract is the library's modular
+compliance (packages/tokens/src/rwa/compliance/storage.rs): per hook an ordered registry of
+modules, `can_transfer` / `can_create` = the loop over the registered modules that stops at the
+first rejection, `transferred` / `created` / `destroyed` = fan-out to the registered modules for a
+bound token. The identity verifier and the compliance MODULES are oracles: arbitrary functions in
+the state, replaced at will by `env*` operations, so every statement holds for every behaviour
+of those contracts. `s` is always the state BEFORE the
 call, `s'` the state after; amounts are arbitrary integers; `auth` is an arbitrary set of
 authorizing addresses; histories are arbitrary finite lists of operations.
 -/
@@ -16,25 +20,49 @@ open OZ.Host OZ.Fungible
 
 /-! ### the gates -/
 
+/-! ### the compliance contract approves iff every registered module approves -/
+
+/-- **compliance_approves_iff_all_modules**: `compliance::can_transfer` answers `true` iff EVERY
+module registered for the CanTransfer hook approves this (from, to, amount) — a rejection by any
+module, wherever it sits in the registration order, is a rejection; likewise `can_create`. -/
+theorem compliance_approves_iff_all_modules (s : State) (f t : Nat) (amt : Int) :
+    ((compCanTransfer s f t amt).2 = true ↔ ∀ m ∈ s.mods .canTransfer, s.modCanTransfer m f t amt = true) ∧
+    ((compCanCreate s t amt).2 = true ↔ ∀ m ∈ s.mods .canCreate, s.modCanCreate m t amt = true) :=
+  ⟨consult_true_iff _ _, consult_true_iff _ _⟩
+
+/-- which modules the verdict loop calls: all of them, in registration order, when it approves;
+otherwise exactly the approving prefix followed by the FIRST rejecting module (short-circuit) -/
+theorem compliance_consults (s : State) (f t : Nat) (amt : Int) :
+    ((compCanTransfer s f t amt).2 = true → (compCanTransfer s f t amt).1 = s.mods .canTransfer) ∧
+    ((compCanTransfer s f t amt).2 = false → ∃ pre m post, s.mods .canTransfer = pre ++ m :: post ∧
+      (∀ x ∈ pre, s.modCanTransfer x f t amt = true) ∧ s.modCanTransfer m f t amt = false ∧
+      (compCanTransfer s f t amt).1 = pre ++ [m]) :=
+  ⟨consult_called_all _ _, consult_called_until_veto _ _⟩
+
 /-- **holder_move_gated**: a successful `transfer` OR `transfer_from` of `amt` from `f` to `t`
 implies: not paused, neither party's address frozen, `amt` within the unfrozen balance of `f`,
-both parties verified, and the compliance contract allows it. -/
+both parties verified, and EVERY compliance module registered for CanTransfer approved it
+(and the token is bound to the compliance contract). -/
 theorem holder_move_gated (c : Cfg) (s s' : State) (auth : List Nat) (op : Op) (f t : Nat) (amt : Int)
     (hop : op.holderMove = some (f, t, amt)) (h : apply c s auth op = .ok s') :
     s.paused = false ∧ s.addrFrozen f = false ∧ s.addrFrozen t = false ∧
     amt ≤ s.base.bal f - s.frozen f ∧ s.idOk f = true ∧ s.idOk t = true ∧
-    s.canTransfer f t amt = true := by
+    (∀ m ∈ s.mods .canTransfer, s.modCanTransfer m f t amt = true) ∧ s.bound = true := by
   cases op with
   | transfer f' t' a' =>
     simp only [Op.holderMove, Option.some.injEq, Prod.mk.injEq] at hop
     obtain ⟨rfl, rfl, rfl⟩ := hop
-    have g := (transfer_ok (apply_transfer h)).2.gates
-    exact ⟨g.notPaused, g.fromNotFrozen, g.toNotFrozen, g.free, g.fromVerified, g.toVerified, g.compliant⟩
+    have p := (transfer_ok (apply_transfer h)).2
+    have g := p.gates
+    exact ⟨g.notPaused, g.fromNotFrozen, g.toNotFrozen, g.free, g.fromVerified, g.toVerified,
+      (consult_true_iff _ _).mp g.compliant, p.bound⟩
   | transferFrom sp f' t' a' =>
     simp only [Op.holderMove, Option.some.injEq, Prod.mk.injEq] at hop
     obtain ⟨rfl, rfl, rfl⟩ := hop
-    have g := (transferFrom_ok (apply_transferFrom h)).2.2.gates
-    exact ⟨g.notPaused, g.fromNotFrozen, g.toNotFrozen, g.free, g.fromVerified, g.toVerified, g.compliant⟩
+    have p := (transferFrom_ok (apply_transferFrom h)).2.2
+    have g := p.gates
+    exact ⟨g.notPaused, g.fromNotFrozen, g.toNotFrozen, g.free, g.fromVerified, g.toVerified,
+      (consult_true_iff _ _).mp g.compliant, p.bound⟩
   | _ => simp [Op.holderMove] at hop
 
 /-- who stands behind a holder move: the holder itself, or a spender with a sufficient
@@ -79,14 +107,15 @@ theorem holder_move_effect (c : Cfg) (s s' : State) (auth : List Nat) (op : Op) 
     exact key (transferFrom_ok (apply_transferFrom h)).2.2
   | _ => simp [Op.holderMove] at hop
 
-/-- **mint_gated**: a successful mint implies a verified recipient, compliance approval, and
-(harness policy) an authorizing operator who is the admin -/
+/-- **mint_gated**: a successful mint implies a verified recipient, the approval of EVERY module
+registered for CanCreate, and (harness policy) an authorizing operator who is the admin -/
 theorem mint_gated (c : Cfg) (s s' : State) (auth : List Nat) (t op : Nat) (amt : Int)
     (h : apply c s auth (.mint t amt op) = .ok s') :
-    s.idOk t = true ∧ s.canCreate t amt = true ∧ op ∈ auth ∧ op = s.admin := by
+    s.idOk t = true ∧ (∀ m ∈ s.mods .canCreate, s.modCanCreate m t amt = true) ∧
+    op ∈ auth ∧ op = s.admin := by
   obtain ⟨⟨ha, hb⟩, hm⟩ := apply_mint h
   have p := mint_ok hm
-  exact ⟨p.verified, p.compliant, ha, hb⟩
+  exact ⟨p.verified, (consult_true_iff _ _).mp p.compliant, ha, hb⟩
 
 /-- every supervisory entry point of the harness token needs the admin's authorization -/
 theorem supervisory_needs_admin (c : Cfg) (s s' : State) (auth : List Nat) (op : Op)
@@ -108,7 +137,11 @@ theorem supervisory_needs_admin (c : Cfg) (s s' : State) (auth : List Nat) (op :
   | advance n => simp [Op.required] at hs
   | envIdOk a ok => simp [Op.required] at hs
   | envRecTarget a t => simp [Op.required] at hs
-  | envCompliance ct cc => simp [Op.required] at hs
+  | envModule m ct cc => simp [Op.required] at hs
+  | addModule hk m op => obtain ⟨⟨ha, hb⟩, -⟩ := apply_addModule h; subst hb; exact ⟨rfl, ha⟩
+  | removeModule hk m op => obtain ⟨⟨ha, hb⟩, -⟩ := apply_removeModule h; subst hb; exact ⟨rfl, ha⟩
+  | bindToken op => obtain ⟨⟨ha, hb⟩, -⟩ := apply_bindToken h; subst hb; exact ⟨rfl, ha⟩
+  | unbindToken op => obtain ⟨⟨ha, hb⟩, -⟩ := apply_unbindToken h; subst hb; exact ⟨rfl, ha⟩
 
 /-! ### 0 ≤ frozen ≤ balance -/
 
@@ -342,6 +375,111 @@ theorem notifications_of_history (c : Cfg) (s : State) (ops : List (List Nat × 
       show s'.notes ++ owedRun c s' xs = s.notes ++ (x.2.owedNotes s ++ owedRun c s' xs)
       rw [compliance_notified_once c s s' x.1 x.2 hx, List.append_assoc]
 
+/-! ### the notification hooks fan out to the registered modules, exactly once each -/
+
+/-- the module registry never holds a module twice for a hook, after any history of
+`add_module_to` / `remove_module_from` (and everything else) -/
+theorem registry_nodup (c : Cfg) (now admin : Nat) (ops : List (List Nat × Op)) (h : Hook) :
+    ((run c (init now admin) ops).mods h).Nodup := by
+  suffices ∀ s, ModsNodup s → ModsNodup (run c s ops) from this _ (by intro k; simp [init]) h
+  induction ops with
+  | nil => intro s hs; exact hs
+  | cons x xs ih =>
+    intro s hs
+    simp only [run, List.foldl_cons]
+    apply ih
+    unfold step
+    cases hx : apply c s x.1 x.2 with
+    | error e => exact hs
+    | ok s' => exact apply_modsNodup_aux c hs x.1 x.2 hx
+
+/-- what the registry operations do: `add_module_to` appends (refusing a registered module and
+the 21st one), `remove_module_from` removes exactly that module and keeps the order of the rest;
+both need the admin and touch no other hook -/
+theorem registry_ops (c : Cfg) (s s' : State) (auth : List Nat) (hk : Hook) (m op : Nat) :
+    (apply c s auth (.addModule hk m op) = .ok s' →
+      m ∉ s.mods hk ∧ (s.mods hk).length < MAX_MODULES ∧ s'.mods hk = s.mods hk ++ [m] ∧
+      (∀ k, k ≠ hk → s'.mods k = s.mods k) ∧ op ∈ auth ∧ op = s.admin) ∧
+    (apply c s auth (.removeModule hk m op) = .ok s' →
+      m ∈ s.mods hk ∧ s'.mods hk = (s.mods hk).erase m ∧
+      (∀ k, k ≠ hk → s'.mods k = s.mods k) ∧ op ∈ auth ∧ op = s.admin) := by
+  constructor
+  · intro h
+    obtain ⟨⟨ha, hb⟩, hm⟩ := apply_addModule h
+    obtain ⟨h1, h2, e⟩ := addModule_ok hm
+    subst e
+    exact ⟨h1, h2, by simp [emit], fun k hk' => by simp [emit, hk'], ha, hb⟩
+  · intro h
+    obtain ⟨⟨ha, hb⟩, hm⟩ := apply_removeModule h
+    obtain ⟨h1, e⟩ := removeModule_ok hm
+    subst e
+    exact ⟨h1, by simp [emit], fun k hk' => by simp [emit, hk'], ha, hb⟩
+
+/-- **hooks_fan_out_exactly_once**: a successful invocation delivers to the compliance modules
+exactly `op.owedModCalls`: for transfer / transfer_from the `can_transfer` query to the consulted
+verdict modules, then ONE `on_transfer(from, to, amount)` to every module registered for the
+Transferred hook, in registration order; forced_transfer / recovery: one `on_transfer` each;
+mint: the `can_create` queries, then one `on_created` per Created module; burn: one
+`on_destroyed` per Destroyed module; every other operation: nothing. -/
+theorem hooks_fan_out_exactly_once (c : Cfg) (s s' : State) (auth : List Nat) (op : Op)
+    (h : apply c s auth op = .ok s') : s'.modCalls = s.modCalls ++ op.owedModCalls s :=
+  apply_modCalls_aux c auth op h
+
+/-- ... so that, the registry being duplicate-free, module `m` receives from a successful holder
+move exactly: one `can_transfer` query iff it is registered for CanTransfer, then one
+`on_transfer` iff it is registered for Transferred — never two, never one it is not registered
+for -/
+theorem holder_move_module_view (c : Cfg) (s s' : State) (auth : List Nat) (op : Op) (f t : Nat) (amt : Int)
+    (hn : ModsNodup s) (hop : op.holderMove = some (f, t, amt)) (h : apply c s auth op = .ok s') (m : Nat) :
+    (op.owedModCalls s).filter (fun x => x.1 = m) =
+      (if m ∈ s.mods .canTransfer then [(m, ModCall.canTransfer f t amt)] else []) ++
+      (if m ∈ s.mods .transferred then [(m, ModCall.onTransfer f t amt)] else []) := by
+  have key : ∀ p : MovePost s s' f t amt,
+      (callsTo (compCanTransfer s f t amt).1 (.canTransfer f t amt) ++
+        callsTo (s.mods .transferred) (.onTransfer f t amt)).filter (fun x => x.1 = m) =
+      (if m ∈ s.mods .canTransfer then [(m, ModCall.canTransfer f t amt)] else []) ++
+      (if m ∈ s.mods .transferred then [(m, ModCall.onTransfer f t amt)] else []) := by
+    intro p
+    have hall : (compCanTransfer s f t amt).1 = s.mods .canTransfer := consult_called_all _ _ p.gates.compliant
+    rw [hall, List.filter_append, callsTo_filter _ _ _ (hn _), callsTo_filter _ _ _ (hn _)]
+  cases op with
+  | transfer f' t' a' =>
+    simp only [Op.holderMove, Option.some.injEq, Prod.mk.injEq] at hop
+    obtain ⟨rfl, rfl, rfl⟩ := hop
+    exact key (transfer_ok (apply_transfer h)).2
+  | transferFrom sp f' t' a' =>
+    simp only [Op.holderMove, Option.some.injEq, Prod.mk.injEq] at hop
+    obtain ⟨rfl, rfl, rfl⟩ := hop
+    exact key (transferFrom_ok (apply_transferFrom h)).2.2
+  | _ => simp [Op.holderMove] at hop
+
+/-- the notification of a forced transfer / burn reaches each registered module exactly once and
+nobody else (the same shape holds for mint's `on_created`, see `hooks_fan_out_exactly_once`) -/
+theorem supervisory_module_view (s : State) (hn : ModsNodup s) (f t x op m : Nat) (amt : Int) :
+    ((Op.forcedTransfer f t amt op).owedModCalls s).filter (fun y => y.1 = m) =
+      (if m ∈ s.mods .transferred then [(m, ModCall.onTransfer f t amt)] else []) ∧
+    ((Op.burn x amt op).owedModCalls s).filter (fun y => y.1 = m) =
+      (if m ∈ s.mods .destroyed then [(m, ModCall.onDestroyed x amt)] else []) :=
+  ⟨callsTo_filter _ _ _ (hn _), callsTo_filter _ _ _ (hn _)⟩
+
+/-- a token that is not bound to the compliance contract cannot notify it, hence cannot move,
+mint or burn at all -/
+theorem moves_need_bound_token (c : Cfg) (s s' : State) (auth : List Nat) (op : Op)
+    (hop : op.owedNotes s ≠ []) (h : apply c s auth op = .ok s') : s.bound = true := by
+  cases op with
+  | transfer f t a => exact (transfer_ok (apply_transfer h)).2.bound
+  | transferFrom sp f t a => exact (transferFrom_ok (apply_transferFrom h)).2.2.bound
+  | mint t a op => exact (mint_ok (apply_mint h).2).bound
+  | burn x a op => exact (burn_ok (apply_burn h).2).bound
+  | forcedTransfer f t a op => exact (forcedTransfer_ok (apply_forcedTransfer h).2).bound
+  | recover old new op =>
+    obtain ⟨-, r, hr⟩ := apply_recover h
+    obtain ⟨-, -, hcase⟩ := recoverBalance_ok hr
+    rcases hcase with ⟨-, hz, -⟩ | ⟨-, -, p⟩
+    · simp [Op.owedNotes, hz] at hop
+    · exact p.bound
+  | _ => simp [Op.owedNotes] at hop
+
 /-! ### C01 for this flavour: conservation and replay -/
 
 /-- one successful invocation preserves "supply = Σ balances, balances ≥ 0, supply a
@@ -387,12 +525,13 @@ theorem replay_events (c : Cfg) (now admin : Nat) (ops : List (List Nat × Op)) 
 /-! ### the defect that was repaired (regression, against the legacy transition) -/
 
 /-- DESIGN §8-1: mint 100 to account 1, approve 80 to spender 3, freeze 90 of them, freeze the
-address, fail its identity, make compliance deny, pause — then `transfer_from(3, 1, 2, 50)`. -/
+address, fail its identity, register a CanTransfer module that denies, pause — then
+`transfer_from(3, 1, 2, 50)`. -/
 def defectOps : List (List Nat × Op) :=
   [([0], .mint 1 100 0), ([1], .approve 1 3 80 5000), ([0], .freezePartial 1 90 0),
    ([0], .setAddressFrozen 1 true 0), ([], .envIdOk 1 false),
-   ([], .envCompliance (fun _ _ _ => false) (fun _ _ => true)), ([0], .pause 0),
-   ([3], .transferFrom 3 1 2 50)]
+   ([0], .addModule .canTransfer 0 0), ([], .envModule 0 (fun _ _ _ => false) (fun _ _ => true)),
+   ([0], .pause 0), ([3], .transferFrom 3 1 2 50)]
 
 /-- with `RWA::transfer_from` as it was before the fix, the history above moves 50 tokens
 through five closed gates and leaves balance 50 < frozen 90 -/
@@ -445,5 +584,32 @@ example : isOk (apply ⟨1, 200000⟩ (run ⟨1, 200000⟩ (init 100 0) (demoOps
 example : (match applyRet ⟨1, 200000⟩ (run ⟨1, 200000⟩ (init 100 0) (demoOps.take 11)) [0] (.recover 1 2 0) with
     | .ok (_, r) => r | .error _ => false) = true := by decide
 example : ∀ x ∈ demoOps, ∀ a ∈ x.2.addrs, a ∈ [0, 1, 2, 3, 4] := by decide
+
+/-- three CanTransfer modules [0, 1, 2], Transferred modules [1, 2]: a veto of the MIDDLE module
+(flat, then by an amount cap) blocks transfer and transfer_from although the last module approves;
+an approved transfer consults all three and notifies modules 1 and 2 once each -/
+def moduleOps : List (List Nat × Op) :=
+  [([0], .mint 1 1000 0), ([1], .approve 1 3 500 5000),
+   ([0], .addModule .canTransfer 0 0), ([0], .addModule .canTransfer 1 0), ([0], .addModule .canTransfer 1 0),
+   ([0], .addModule .canTransfer 2 0), ([0], .addModule .transferred 1 0), ([0], .addModule .transferred 2 0),
+   ([], .envModule 1 (fun _ _ _ => false) (fun _ _ => true)),
+   ([1], .transfer 1 2 10), ([3], .transferFrom 3 1 2 10),
+   ([], .envModule 1 (fun _ _ a => decide (a ≤ 10)) (fun _ _ => true)),
+   ([1], .transfer 1 2 11), ([1], .transfer 1 2 10),
+   ([0], .removeModule .canTransfer 0 0), ([0], .unbindToken 0), ([1], .transfer 1 2 1)]
+
+example :
+    (run ⟨1, 200000⟩ (init 100 0) moduleOps).base.bal 1 = 990 ∧
+    (run ⟨1, 200000⟩ (init 100 0) moduleOps).base.bal 2 = 10 ∧
+    (run ⟨1, 200000⟩ (init 100 0) moduleOps).mods .canTransfer = [1, 2] ∧
+    (run ⟨1, 200000⟩ (init 100 0) moduleOps).bound = false ∧
+    (run ⟨1, 200000⟩ (init 100 0) moduleOps).notes = [.created 1 1000, .transferred 1 2 10] ∧
+    (run ⟨1, 200000⟩ (init 100 0) moduleOps).modCalls =
+      [(0, .canTransfer 1 2 10), (1, .canTransfer 1 2 10), (2, .canTransfer 1 2 10),
+       (1, .onTransfer 1 2 10), (2, .onTransfer 1 2 10)] := by decide
+
+/-- the verdict loop on [allow, deny, allow]: rejected, and the third module is never asked -/
+example : consult (fun m => m != 1) [0, 1, 2] = ([0, 1], false) ∧
+    consult (fun _ => true) [0, 1, 2] = ([0, 1, 2], true) ∧ consult (fun _ => false) [] = ([], true) := by decide
 
 end OZ.Rwa
